@@ -64,6 +64,34 @@ def field_box(prog, adt, idx):
         lo, hi = poly_interval(poly, pr.box)
         # tighten with facts (lower/upper bounds provable by the prover)
         lo, hi = tighten(pr, poly, lo, hi)
+        if (lo is None or hi is None or hi - lo >= (1 << 31)) and any(str(x).startswith(("phi(", "loop(")) for x in poly.syms()):
+            # multi-definition operand: evaluate on every acyclic path to the site and take the hull
+            from .sym import forward_paths
+            paths = forward_paths(ctx.an, bi, limit=256)
+            plo, phi_, okp = None, None, bool(paths)
+            for path in paths or []:
+                ctx.enter_path(path)
+                try:
+                    pp_ = ctx.sy.poly(ctx.an.terms.operand(s["rv"]["ops"][idx]))
+                    if pp_ is None:
+                        okp = False
+                        break
+                    pr2, _, other2 = ctx.prover_at(bi, [pp_])
+                    dead, _ = pr2.prove_ge0(Poly.const(-1))
+                    if dead or any(a[0] == "false" for a in other2):
+                        continue
+                    l2, h2 = poly_interval(pp_, pr2.box)
+                    l2, h2 = tighten(pr2, pp_, l2, h2)
+                    if l2 is None or h2 is None:
+                        okp = False
+                        break
+                    plo = l2 if plo is None else min(plo, l2)
+                    phi_ = h2 if phi_ is None else max(phi_, h2)
+                finally:
+                    ctx.leave_path()
+            if okp and plo is not None:
+                lo = plo if lo is None else max(lo, plo)
+                hi = phi_ if hi is None else min(hi, phi_)
         if lo_hi is None:
             lo_hi = (lo, hi)
         else:
